@@ -53,9 +53,9 @@ Definition run_evaluator (kseg_ev : list expr) (segs : list (list Z)) (xs : list
   end.
 
 Definition run_evaluate_v (kpiece_ev : list expr) (segs : list (list Z)) (xs : list Z) : list Z :=
-  match ev_v flt (mksegs segs) (map of_bits xs) with
+  match ev_v_answers flt (piece_ev kpiece_ev) (mksegs segs) (map of_bits xs) with
   | None => PANIC
-  | Some l => map (fun '(x, s) => to_bits (piece_ev kpiece_ev (snd s) x)) l
+  | Some l => map to_bits l
   end.
 
 (* merge with the IntOfLogPoly4 reference-operand kernel (12 inputs, 6 outputs) *)
